@@ -168,6 +168,43 @@ func ensureBuild(verifDir, repoDir string) (*buildInfo, error) {
 		ov[k] = v
 		reps = append(reps, instr.Report{File: "GOROOT/src/runtime/" + filepath.Base(k), Funcs: []string{"kgsim runtime seam"}})
 	}
+	// 1c. literal patches in dependency modules: files of the module cache cannot be
+	// overlaid, so each such module is copied and replaced in the modfile (step 3)
+	modReplace := map[string]string{}
+	for mod, files := range meta.ModulePatches {
+		cmd := exec.Command(goBin, "list", "-m", "-f", "{{.Dir}}", mod)
+		cmd.Dir = harness
+		cmd.Env = goEnv()
+		outb, err := cmd.Output()
+		if err != nil {
+			return nil, fmt.Errorf("locating %s: %v", mod, err)
+		}
+		mdir := strings.TrimSpace(string(outb))
+		dstDir := filepath.Join(tmp, "mod_"+strings.NewReplacer("/", "_", ".", "_").Replace(mod))
+		if err := copyTree(mdir, dstDir); err != nil {
+			return nil, fmt.Errorf("copying %s: %v", mod, err)
+		}
+		for f, prs := range files {
+			fp := filepath.Join(dstDir, f)
+			b, err := os.ReadFile(fp)
+			if err != nil {
+				return nil, err
+			}
+			src := string(b)
+			for _, pr := range prs {
+				if strings.Count(src, pr[0]) != 1 {
+					return nil, fmt.Errorf("%s/%s: expected exactly one occurrence of %q", mod, f, pr[0])
+				}
+				src = strings.Replace(src, pr[0], pr[1], 1)
+			}
+			_ = os.Chmod(fp, 0o644)
+			if err := os.WriteFile(fp, []byte(src), 0o644); err != nil {
+				return nil, err
+			}
+			reps = append(reps, instr.Report{File: mod + "/" + f, Funcs: []string{"kgsim literal patch"}})
+		}
+		modReplace[mod] = dstDir
+	}
 	// 2. instrumented scratch copy of the maxinflight dependency
 	cmd := exec.Command(goBin, "list", "-m", "-f", "{{.Dir}}", meta.GolibModule)
 	cmd.Dir = harness
@@ -218,6 +255,17 @@ func ensureBuild(verifDir, repoDir string) (*buildInfo, error) {
 		mod = strings.ReplaceAll(mod, "=> /repo\n", "=> "+repoDir+"\n")
 	}
 	mod += fmt.Sprintf("\nreplace %s => %s\n", meta.GolibModule, final(golibDst))
+	for m, d := range modReplace {
+		// drop an existing replace of the module, then point it at the patched copy
+		var keep []string
+		for _, l := range strings.Split(mod, "\n") {
+			if strings.HasPrefix(strings.TrimSpace(l), m+" => ") || strings.HasPrefix(strings.TrimSpace(l), "replace "+m+" => ") {
+				continue
+			}
+			keep = append(keep, l)
+		}
+		mod = strings.Join(keep, "\n") + fmt.Sprintf("\nreplace %s => %s\n", m, final(d))
+	}
 	if err := os.WriteFile(filepath.Join(tmp, "go.mod"), []byte(mod), 0o644); err != nil {
 		return nil, err
 	}
@@ -300,8 +348,32 @@ func pruneBuilds(dir string, keep int, current string) {
 
 // runtimePatches: file of the toolchain's runtime package -> textual replacements.
 var runtimePatches = map[string][][2]string{
+	// sync.Mutex switches to starvation mode (direct hand-off to the oldest waiter) when
+	// a waiter has waited for more than 1 ms of REAL time (runtime_nanotime is not the
+	// bubble's clock): on a loaded machine a contended lock - preemption fuzzing makes
+	// goroutines give up the processor while they hold one - then changes who gets it
+	// next. Never starving keeps one seed one execution; fairness is not a property here.
+	"internal/sync/mutex.go": {
+		{"\tstarvationThresholdNs = 1e6\n", "\tstarvationThresholdNs = 1 << 62 // kgsim: never (see cmd/kgcheck/build.go)\n"},
+	},
 	"proc.go": {
 		{"const forcePreemptNS = 10 * 1000 * 1000 // 10ms", "const forcePreemptNS = 1 << 62 // kgsim: never (see cmd/kgcheck/build.go)"},
+		// sysmon takes the P away from a goroutine that has been in a system call for
+		// more than one sysmon tick (20 us - 10 ms of REAL time) and lets other goroutines
+		// run meanwhile; on a loaded machine even getpid can take that long. The worlds do
+		// no blocking system calls, so the P stays with the caller (for up to 10 s).
+		// Goroutines that do not belong to a bubble (started by init functions, by the
+		// test framework, by the world before it enters its bubble) wake up when real
+		// time or the operating system says so. Two rules of the scheduler let such a
+		// wake-up change the order of the bubble's goroutines: a woken goroutine takes
+		// the processor's "next" slot and sends the one that held it to the back of the
+		// queue, and every 61st scheduling round looks at the global queue (where
+		// runtime.Gosched puts a goroutine) before the local one - so one round more or
+		// less moves that moment. In the worker a goroutine without a bubble never takes
+		// the "next" slot, and the global queue is looked at when the local one is empty.
+		{"\trunqput(mp.p.ptr(), gp, next)\n", "\trunqput(mp.p.ptr(), gp, next && gp.bubble != nil) // kgsim: see cmd/kgcheck/build.go\n"},
+		{"\tif pp.schedtick%61 == 0 && !sched.runq.empty() {\n", "\tif false && pp.schedtick%61 == 0 && !sched.runq.empty() { // kgsim: see cmd/kgcheck/build.go\n"},
+		{"\t\tif runqempty(pp) && sched.nmspinning.Load()+sched.npidle.Load() > 0 && pd.syscallwhen+10*1000*1000 > now {\n", "\t\tif pd.syscallwhen+10*1000*1000*1000 > now { // kgsim: see cmd/kgcheck/build.go\n"},
 	},
 	"time.go": {
 		{"\t\t\tt.rand = cheaprand()\n", "\t\t\tt.rand = kgBubbleRand32(getg().bubble) // kgsim: the bubble's own coin\n"},
@@ -323,7 +395,15 @@ var runtimePatches = map[string][][2]string{
 	},
 }
 
-const kgRuntimeFuncs = `// kgBubbleRand64 is the PRNG of a bubble (splitmix64). Goroutines of a bubble
+const kgRuntimeFuncs = `// KgSchedTicks: the current P's scheduler and syscall ticks (debugging aid of the
+// determinism self-test: the first yield at which two executions of one seed
+// disagree on them is where something else got the processor).
+func KgSchedTicks() (uint32, uint32) {
+	pp := getg().m.p.ptr()
+	return pp.schedtick, pp.syscalltick
+}
+
+// kgBubbleRand64 is the PRNG of a bubble (splitmix64). Goroutines of a bubble
 // run one at a time in the worker (GOMAXPROCS=1), so the sequence of calls is a
 // function of the program.
 //
@@ -361,6 +441,9 @@ func patchRuntime(dir string) (map[string]string, error) {
 	ov := map[string]string{}
 	for name, reps := range runtimePatches {
 		p := filepath.Join(rt, name)
+		if strings.Contains(name, "/") { // relative to GOROOT/src
+			p = filepath.Join(filepath.Dir(rt), name)
+		}
 		b, err := os.ReadFile(p)
 		if err != nil {
 			return nil, err
@@ -372,7 +455,7 @@ func patchRuntime(dir string) (map[string]string, error) {
 			}
 			src = strings.Replace(src, r[0], r[1], 1)
 		}
-		dst := filepath.Join(dir, "runtime_"+name)
+		dst := filepath.Join(dir, "runtime_"+strings.ReplaceAll(name, "/", "_"))
 		if err := os.WriteFile(dst, []byte(src), 0o644); err != nil {
 			return nil, err
 		}
